@@ -536,3 +536,266 @@ Proof.
   - simpl in ID. destruct ID as [<-|[]]. simpl in Ic. destruct Ic as [E|[E|[]]]; discriminate.
   - specialize (H ["a"; "b"]%string "a"%string (or_introl eq_refl) (or_introl eq_refl)). vm_compute in H. discriminate.
 Qed.
+
+(* ================================================================ topology spread *)
+Definition Rle (a b : string * Z) : Prop := fst a = fst b /\ snd a <= snd b.
+
+Lemma Rle_refl_list (m : dmap) : Forall2 Rle m m.
+Proof. induction m; constructor; [split; [reflexivity | lia] | assumption]. Qed.
+
+Lemma bump_Rle d (m : dmap) : lookup d m <> None -> Forall2 Rle m (bump d m).
+Proof.
+  induction m as [|[k c] t IH]; simpl; [congruence|]. destruct (String.eqb d k) eqn:E; intros H.
+  - constructor; [split; simpl; [reflexivity | lia] | apply Rle_refl_list].
+  - constructor; [split; simpl; [reflexivity | lia] | apply IH; exact H].
+Qed.
+
+Lemma filter_Rle (P : string -> bool) (m m' : dmap) : Forall2 Rle m m' ->
+  Forall2 Rle (filter (fun kc => P (fst kc)) m) (filter (fun kc => P (fst kc)) m').
+Proof.
+  induction 1 as [|a b l l' [E L] F IH]; simpl; [constructor|]. rewrite E.
+  destruct (P (fst b)); [constructor; [split; assumption | exact IH] | exact IH].
+Qed.
+
+Lemma min_count_Rle (l l' : dmap) : Forall2 Rle l l' -> forall a a', a <= a' ->
+  fold_left (fun a kc => Z.min a (snd kc)) l a <= fold_left (fun a kc => Z.min a (snd kc)) l' a'.
+Proof. induction 1 as [|x y l l' [E L] F IH]; simpl; intros a a' H; [exact H | apply IH; lia]. Qed.
+
+Lemma Forall2_len {A B} (R : A -> B -> Prop) l l' : Forall2 R l l' -> length l = length l'.
+Proof. induction 1; simpl; congruence. Qed.
+
+Lemma dmin_mono_Rle g g' pd : ghost g' = ghost g -> gmind g' = gmind g -> Forall2 Rle (gdom g) (gdom g') ->
+  dmin g pd <= dmin g' pd.
+Proof.
+  intros H1 H2 F. unfold dmin. rewrite H1, H2. destruct (ghost g); [lia|].
+  pose proof (filter_Rle (has pd) _ _ F) as FF. unfold Model.supported.
+  rewrite <- (Forall2_len _ _ _ FF). unfold min_count.
+  pose proof (min_count_Rle _ _ FF maxint32 maxint32 ltac:(lia)).
+  destruct (gmind g) as [k|]; [destruct (_ <? k); lia | lia].
+Qed.
+
+Lemma dmin_record1 g d pd : lookup d (gdom g) <> None \/ ghost g = true -> dmin g pd <= dmin (record1 g d) pd.
+Proof.
+  intros [K|H].
+  - apply dmin_mono_Rle; [reflexivity | reflexivity | simpl; apply bump_Rle; exact K].
+  - unfold dmin. simpl. rewrite H. lia.
+Qed.
+
+Lemma dmin_registers_host g ds pd : ghost g = true -> dmin (fold_left register1 ds g) pd = dmin g pd.
+Proof.
+  intros H. unfold dmin. destruct (static_fold register1 static_register1 ds g) as (_ & B & _). simpl in B.
+  rewrite B, H. reflexivity.
+Qed.
+
+(* [SPlace pd nd valid d]: a carrier that matches its own selector is admitted to domain d (Get returned
+   In [d]) and committed there. [SRegister] only happens for the hostname key (Topology.Register). *)
+Inductive sop := SPlace (pd nd : req) (valid : list string) (d : string) | SRegister (ds : list string).
+Definition sstep (g : group) (o : sop) : group :=
+  match o with SPlace _ _ _ d => record1 g d | SRegister ds => fold_left register1 ds g end.
+Fixpoint strace_ok (g : group) (tr : list sop) : Prop :=
+  match tr with
+  | [] => True
+  | o :: t => match o with
+              | SPlace pd nd valid d => allowed_spread g true pd nd [d] valid = true
+              | SRegister _ => ghost g = true end /\ strace_ok (sstep g o) t
+  end.
+Definition placed (o : sop) : option string := match o with SPlace _ _ _ d => Some d | _ => None end.
+
+Lemma wf_sstep g o : wf g -> wf (sstep g o).
+Proof. destruct o; simpl; intros W; [apply wf_record1; exact W | apply wf_fold; [apply wf_register1 | exact W]]. Qed.
+
+Lemma cand_known g self pd nd d c : List.In (d, c) (spread_cands g self pd nd) -> lookup d (gdom g) <> None.
+Proof.
+  unfold spread_cands. destruct (is_in nd); rewrite in_flat_map.
+  - intros [x [_ H]]. destruct (lookup x (gdom g)) eqn:L; [|destruct H].
+    destruct (_ <=? _); [|destruct H]. destruct H as [H|[]]. inversion H; subst. congruence.
+  - intros [[k c0] [I H]]. destruct (_ && _); [|destruct H]. destruct H as [H|[]]. inversion H; subst.
+    intros N. apply lookup_none_keys in N. apply N. change d with (fst (d, c0)). apply in_map. exact I.
+Qed.
+
+Lemma place_known g pd nd valid d : allowed_spread g true pd nd [d] valid = true ->
+  lookup d (gdom g) <> None \/ ghost g = true.
+Proof.
+  unfold allowed_spread. destruct (host_single g nd) eqn:HS.
+  - intros _. right. unfold host_single in HS. destruct (ghost g); [reflexivity | discriminate].
+  - intros A. left. apply andb_true_iff in A. destruct A as [_ A]. apply andb_true_iff in A. destruct A as [_ A].
+    unfold is_argmin in A. destruct (lookup d (spread_cands g true pd nd)) eqn:L; [|discriminate].
+    eapply cand_known. apply lookup_In. exact L.
+Qed.
+
+(* right after the commit the skew bound holds in the chosen domain *)
+Lemma place_establishes g pd nd valid d : wf g -> allowed_spread g true pd nd [d] valid = true ->
+  cnt (gdom (record1 g d)) d - dmin (record1 g d) pd <= gskew g.
+Proof.
+  intros W A. pose proof (dmin_record1 g d pd (place_known _ _ _ _ _ A)) as MONO. rewrite cnt_record1_same.
+  unfold allowed_spread in A. destruct (host_single g nd) as [h|] eqn:HS.
+  - assert (HG : ghost g = true) by (unfold host_single in HS; destruct (ghost g); [reflexivity | discriminate]).
+    assert (D0 : dmin (record1 g d) pd = 0) by (unfold dmin; simpl; rewrite HG; reflexivity).
+    destruct (cnt (gdom g) h + inc true <=? gskew g) eqn:E; apply andb_true_iff in A; destruct A as [A _].
+    + assert (I : List.In d [h]) by (eapply seteq_In; [exact A | left; reflexivity]). destruct I as [<-|[]].
+      apply Z.leb_le in E. simpl in E. lia.
+    + assert (I : List.In d []) by (eapply seteq_In; [exact A | left; reflexivity]). destruct I.
+  - apply andb_true_iff in A. destruct A as [_ A]. apply andb_true_iff in A. destruct A as [_ A].
+    unfold is_argmin in A. destruct (lookup d (spread_cands g true pd nd)) eqn:L; [|discriminate].
+    apply lookup_In in L. destruct (cands_sound _ _ _ _ _ _ W L) as [E LE]. simpl in E. lia.
+Qed.
+
+Lemma keep_bound g o d pd : wf g -> placed o <> Some d ->
+  match o with SPlace pd' nd valid d' => allowed_spread g true pd' nd [d'] valid = true | SRegister _ => ghost g = true end ->
+  cnt (gdom g) d - dmin g pd <= gskew g ->
+  cnt (gdom (sstep g o)) d - dmin (sstep g o) pd <= gskew (sstep g o).
+Proof.
+  intros W NP OK B. destruct o as [pd' nd valid d'|ds]; simpl in *.
+  - assert (N : d <> d') by congruence. rewrite cnt_bump_other by exact N.
+    pose proof (dmin_record1 g d' pd (place_known _ _ _ _ _ OK)) as H. lia.
+  - rewrite cnt_registers, (dmin_registers_host g ds pd OK).
+    destruct (static_fold register1 static_register1 ds g) as (_ & _ & C & _). simpl in C. rewrite C. exact B.
+Qed.
+
+Definition srun (g : group) (tr : list sop) : group := fold_left sstep tr g.
+
+Lemma keep_bound_run : forall post g d pd, wf g -> strace_ok g post ->
+  (forall o, List.In o post -> placed o <> Some d) ->
+  cnt (gdom g) d - dmin g pd <= gskew g ->
+  cnt (gdom (srun g post)) d - dmin (srun g post) pd <= gskew (srun g post).
+Proof.
+  unfold srun. induction post as [|o t IH]; simpl; intros g d pd W T NP B; [exact B|].
+  destruct T as [OK T]. apply IH; [apply wf_sstep; exact W | exact T | intros o' I; apply NP; right; exact I |].
+  apply keep_bound; [exact W | apply NP; left; reflexivity | exact OK | exact B].
+Qed.
+
+Lemma spread_inv_l : forall pre g0 pd nd valid d post, wf g0 ->
+  strace_ok g0 (pre ++ SPlace pd nd valid d :: post) ->
+  (forall o, List.In o post -> placed o <> Some d) ->
+  let gf := srun g0 (pre ++ SPlace pd nd valid d :: post) in
+  cnt (gdom gf) d - dmin gf pd <= gskew gf.
+Proof.
+  induction pre as [|o pre IH]; simpl; intros g0 pd nd valid d post W T NP.
+  - destruct T as [A T]. apply (keep_bound_run post (record1 g0 d) d pd); [apply wf_record1; exact W | exact T | exact NP |].
+    apply (place_establishes g0 pd nd valid d W A).
+  - destruct T as [_ T]. apply (IH (sstep g0 o) pd nd valid d post (wf_sstep _ _ W) T NP).
+Qed.
+
+(* ================================================================ boolean oracles reflect their Prop specs *)
+Definition anti_ok (w : world) : Prop :=
+  forall p t q, List.In p (w_pods w) -> List.In t (p_anti p) -> List.In q (w_pods w) ->
+    same_pod p q = false -> (p_new p = true \/ p_new q = true) -> term_matches w p t q = true ->
+    forall d, List.In d (dom_of w p (t_key t)) -> ~ List.In d (dom_of w q (t_key t)).
+
+Lemma disjoint_spec a b : disjoint a b = true <-> forall d, List.In d a -> ~ List.In d b.
+Proof.
+  unfold disjoint. rewrite forallb_forall. split; intros H d I.
+  - specialize (H d I). apply negb_true_iff in H. intros J. apply mem_In in J. congruence.
+  - apply negb_true_iff. destruct (mem d b) eqn:M; [|reflexivity]. exfalso. apply (H d I). apply mem_In. exact M.
+Qed.
+
+Lemma anti_ok_iff w : anti_ok_b w = true <-> anti_ok w.
+Proof.
+  unfold anti_ok_b, anti_ok. rewrite forallb_forall. split.
+  - intros H p t q Ip It Iq S N M. specialize (H p Ip). rewrite forallb_forall in H. specialize (H t It).
+    rewrite forallb_forall in H. specialize (H q Iq). unfold anti_pair_ok in H. rewrite S, M in H. simpl in H.
+    assert (X : negb (p_new p || p_new q) = false) by (destruct N as [-> | ->]; simpl; [reflexivity | rewrite orb_true_r; reflexivity]).
+    rewrite X in H. simpl in H. apply disjoint_spec. exact H.
+  - intros H p Ip. apply forallb_forall. intros t It. apply forallb_forall. intros q Iq. unfold anti_pair_ok.
+    destruct (same_pod p q) eqn:S; [reflexivity|]. simpl.
+    destruct (p_new p || p_new q) eqn:N; [|reflexivity]. simpl.
+    destruct (term_matches w p t q) eqn:M; [|reflexivity]. simpl. apply disjoint_spec.
+    apply (H p t q Ip It Iq S); [apply orb_true_iff in N; exact N | exact M].
+Qed.
+
+Definition affinity_ok (w : world) : Prop :=
+  forall p t, List.In p (w_pods w) -> p_new p = true -> List.In t (p_aff p) ->
+    dom_of w p (t_key t) <> [] /\
+    forall d, List.In d (dom_of w p (t_key t)) ->
+      supported w p t d = true \/
+      (term_matches w p t p = true /\ bound_usable_match w p t = false /\ mutual_openers w p t d = false).
+
+Lemma affinity_ok_iff w : affinity_ok_b w = true <-> affinity_ok w.
+Proof.
+  unfold affinity_ok_b, affinity_ok. rewrite forallb_forall. split.
+  - intros H p t Ip N It. specialize (H p Ip). rewrite N in H. simpl in H. rewrite forallb_forall in H.
+    specialize (H t It). unfold aff_term_ok in H. apply andb_true_iff in H. destruct H as [L H]. split.
+    + intros E. rewrite E in L. discriminate.
+    + intros d Id. rewrite forallb_forall in H. specialize (H d Id). apply orb_true_iff in H. destruct H as [H|H]; [left; exact H|].
+      right. rewrite !andb_true_iff, !negb_true_iff in H. tauto.
+  - intros H p Ip. destruct (p_new p) eqn:N; [|reflexivity]. simpl. apply forallb_forall. intros t It.
+    destruct (H p t Ip N It) as [NE A]. unfold aff_term_ok. apply andb_true_iff. split.
+    + destruct (dom_of w p (t_key t)); [congruence | reflexivity].
+    + apply forallb_forall. intros d Id. destruct (A d Id) as [S|(M & B & O)]; [rewrite S; reflexivity|].
+      rewrite M, B, O. apply orb_true_r.
+Qed.
+
+Definition spread_ok (w : world) : Prop :=
+  forall p c, List.In p (w_pods w) -> p_new p = true -> List.In c (p_spread p) -> sp_in_scope w p c = true ->
+    dom_of w p (s_key c) <> [] /\
+    forall d, List.In d (dom_of w p (s_key c)) -> sp_ok w p c d = true \/ sp_later_ok w p c d = true.
+
+Lemma spread_ok_iff w : spread_ok_b w = true <-> spread_ok w.
+Proof.
+  unfold spread_ok_b, spread_ok. rewrite forallb_forall. split.
+  - intros H p c Ip N Ic S. specialize (H p Ip). rewrite N in H. simpl in H. rewrite forallb_forall in H.
+    specialize (H c Ic). unfold spread_c_ok in H. rewrite S in H. simpl in H. apply andb_true_iff in H. destruct H as [L H]. split.
+    + intros E. rewrite E in L. discriminate.
+    + intros d Id. rewrite forallb_forall in H. apply orb_true_iff. apply H. exact Id.
+  - intros H p Ip. destruct (p_new p) eqn:N; [|reflexivity]. simpl. apply forallb_forall. intros c Ic.
+    unfold spread_c_ok. destruct (sp_in_scope w p c) eqn:S; [|reflexivity]. simpl.
+    destruct (H p c Ip N Ic S) as [NE A]. apply andb_true_iff. split.
+    + destruct (dom_of w p (s_key c)); [congruence | reflexivity].
+    + apply forallb_forall. intros d Id. apply orb_true_iff. apply A. exact Id.
+Qed.
+
+Definition interpod_ok (w : world) : Prop := anti_ok w /\ affinity_ok w /\ spread_ok w.
+Lemma interpod_ok_iff w : interpod_ok_b w = true <-> interpod_ok w.
+Proof.
+  unfold interpod_ok_b, interpod_ok. rewrite !andb_true_iff, anti_ok_iff, affinity_ok_iff, spread_ok_iff. tauto.
+Qed.
+
+(* ================================================================ instances on freshly built groups *)
+Lemma cnt_new_group ty host skew mind ds d : cnt (gdom (new_group ty host skew mind ds)) d = 0.
+Proof. unfold new_group. rewrite cnt_registers. reflexivity. Qed.
+
+Lemma covered_nil g : covered g [].
+Proof. intros D d []. Qed.
+
+Lemma matched_new_group ty host skew mind ds : matched (new_group ty host skew mind ds) [].
+Proof. intros d. rewrite cnt_new_group. split; [lia | intros []]. Qed.
+
+Lemma anti_inv_new : forall ty host skew mind ds pre pd nd F post,
+  atrace_ok (new_group ty host skew mind ds) (pre ++ AAdmit pd nd F :: post) ->
+  forall D, List.In D (acommits pre) -> forall d, List.In d F -> ~ List.In d D.
+Proof.
+  intros. eapply (anti_inv_l pre _ [] pd nd F post (wf_new_group _ _ _ _ _) (covered_nil _)); eauto.
+  rewrite app_nil_r. assumption.
+Qed.
+
+Lemma affinity_inv_new : forall ty host skew mind ds pre self pd nd result F post,
+  ftrace_ok (new_group ty host skew mind ds) (pre ++ FAdmit self pd nd result F :: post) ->
+  forall d, List.In d F ->
+    List.In [d] (fcommits pre) \/ (self = true /\ forall d', List.In [d'] (fcommits pre) -> has pd d' = false).
+Proof.
+  intros until post. intros T d I.
+  pose proof (affinity_inv_l pre _ [] self pd nd result F post (wf_new_group _ _ _ _ _) (matched_new_group _ _ _ _ _) T d I) as H.
+  rewrite app_nil_r in H. exact H.
+Qed.
+
+Lemma affinity_partial_new : forall ty host skew mind ds tr,
+  ftrace_ok (new_group ty host skew mind ds) tr -> all_collapsed (fcommits tr) -> strong_affinity [] tr.
+Proof.
+  intros. eapply affinity_partial_l; eauto using wf_new_group, matched_new_group. rewrite app_nil_r. assumption.
+Qed.
+
+Lemma spread_inv_new : forall host skew mind ds pre pd nd valid d post,
+  let g0 := new_group TSpread host skew mind ds in
+  strace_ok g0 (pre ++ SPlace pd nd valid d :: post) ->
+  (forall o, List.In o post -> placed o <> Some d) ->
+  let gf := srun g0 (pre ++ SPlace pd nd valid d :: post) in
+  cnt (gdom gf) d - dmin gf pd <= gskew gf.
+Proof. intros. apply spread_inv_l; [apply wf_new_group | assumption | assumption]. Qed.
+
+Lemma spread_inv_reachable : forall host skew mind ds ops pre pd nd valid d post,
+  let g0 := run (new_group TSpread host skew mind ds) ops in
+  strace_ok g0 (pre ++ SPlace pd nd valid d :: post) ->
+  (forall o, List.In o post -> placed o <> Some d) ->
+  let gf := srun g0 (pre ++ SPlace pd nd valid d :: post) in
+  cnt (gdom gf) d - dmin gf pd <= gskew gf.
+Proof. intros. apply spread_inv_l; [apply wf_run_l, wf_new_group | assumption | assumption]. Qed.
